@@ -150,7 +150,10 @@ def plan_wants(rng, S, ref, corrupt):
             if corrupt_at == idx:
                 c = rng.choice(CORRUPTIONS)
                 # dropping a final <BLANKLINE> changes nothing (trailing whitespace is not compared)
-                if c == 'drop' and (len(wl) < 2 or wl[-1] == '<BLANKLINE>'):
+                # ... and a want left with <BLANKLINE> lines only is an empty want, which the empty output of a silent
+                # final statement satisfies
+                if c == 'drop' and (len(wl) < 2 or wl[-1] == '<BLANKLINE>' or
+                                    not any(w != '<BLANKLINE>' for w in wl[:-1])):
                     c = 'replace'
                 if c == 'stale' and not any(w != '<BLANKLINE>' for w in stale):
                     c = 'replace'
